@@ -110,7 +110,7 @@ fn build_worlds(thorough: bool) -> (Vec<WorldSpec>, Value) {
     let bounds = json!({
         "leaves": uni::leaves().iter().map(|t| t.kind()).collect::<Vec<_>>(),
         "leaves_below_constructors": if thorough { uni::leaves() } else { uni::leaves_quick() }.iter().map(|t| t.kind()).collect::<Vec<_>>(),
-        "quick_tier_note": "quick: every leaf bare; every constructor over the 9 class-representative leaves; list/option over the other leaves; record/tuple/variant holding all 13 primitives; rust variants other than the default run without --format (a pure post-processing step); thorough: every constructor over every leaf, depth 2, --format everywhere",
+        "quick_tier_note": "quick: every leaf bare; every constructor over the 9 class-representative leaves; list/option over the other leaves; record/tuple/variant holding all 13 primitives; thorough: every constructor over every leaf, depth 2. Both tiers: rust variants other than the default run without --format (a pure post-processing step of the finished text)",
         "reduced_leaves_depth2": uni::leaves_reduced().iter().map(|t| t.kind()).collect::<Vec<_>>(),
         "constructors": uni::apply_all(&Ty::Prim("T"), true).iter().map(|t| t.kind()).chain(uni::nullary().iter().map(|t| t.kind())).collect::<BTreeSet<_>>(),
         "positions": uni::POSITIONS.iter().map(|p| p.name()).collect::<Vec<_>>(),
@@ -313,11 +313,12 @@ fn main() {
     }
     let table = exclusions::verify_tables();
     let mut bvs = backends::all_bvs();
-    if !run.thorough() {
-        for b in bvs.iter_mut() {
-            if b.backend == "rust" && !b.variant.is_empty() {
-                b.args.retain(|a| *a != "--format");
-            }
+    // `--format` (syn + prettyplease over the finished text) is 3/4 of the Rust generator's run
+    // time; it is kept on the default variant (every world goes through it once) and dropped
+    // from the six other Rust variants, whose options do not reach the formatter.
+    for b in bvs.iter_mut() {
+        if b.backend == "rust" && !b.variant.is_empty() {
+            b.args.retain(|a| *a != "--format");
         }
     }
     let (mut worlds, bounds) = build_worlds(run.thorough());
